@@ -1,9 +1,9 @@
 #!/bin/bash
-# tools/confirm_mut.sh <ID>: in the scratch worktree /tmp/mut_<ID> (patch applied by the sub-agent), confirm that
+# tools/confirm_mut.sh <ID> (MUT_PREFIX=m2 for the second round): in the scratch worktree /tmp/<prefix>_<ID> (patch applied by the sub-agent), confirm that
 # the demonstration fails with the patch and passes without it, and that the existing tests still pass with it.
 # Writes /tmp/mut_<ID>_out/confirm.log (summary lines start with CONFIRM).
-id=$1; wt=/tmp/mut_$id; out=/tmp/mut_${id}_out; log=$out/confirm.log
-export CARGO_TARGET_DIR=/tmp/mut_${id}_target CARGO_NET_OFFLINE=true
+id=$1; pre=${MUT_PREFIX:-mut}; wt=/tmp/${pre}_$id; out=/tmp/${pre}_${id}_out; log=$out/confirm.log
+export CARGO_TARGET_DIR=/tmp/${pre}_${id}_target CARGO_NET_OFFLINE=true
 cd $wt || exit 2
 : > $log
 git stash list >/dev/null
@@ -15,7 +15,7 @@ bash $out/run_demo.sh >> $log 2>&1; w=$?
 echo "CONFIRM demo_with_patch_exit=$w" >> $log
 echo "== existing tests with patch" >> $log
 # the demonstration test must not count as an existing test: move it aside
-mkdir -p /tmp/mut_${id}_aside; for f in $(git ls-files --others --exclude-standard | grep -E "tests/mut_|mut_c"); do mv $f /tmp/mut_${id}_aside/ ; done
+mkdir -p /tmp/${pre}_${id}_aside; for f in $(git ls-files --others --exclude-standard | grep -E "tests/mut_|mut_c"); do mv $f /tmp/${pre}_${id}_aside/ ; done
 timeout 3000 cargo test --offline --workspace --no-fail-fast >> $log 2>&1; t=$?
 echo "CONFIRM existing_tests_with_patch_exit=$t failed_lines=$(grep -c 'test result: FAILED' $log)" >> $log
 git apply -R $out/patch.diff
